@@ -439,6 +439,8 @@ class OneDGrid(Grid):
                 raise ValueError(
                     f"domain should be an ascending tuple of length 2. domain={domain}"
                 )
+        # (an empty grid, e.g. an empty selection, trivially lies inside any domain)
+        if domain is not None and points.size > 0:
             min_p = np.min(points)
             if domain[0] - 1e-7 > min_p:
                 raise ValueError(
